@@ -942,3 +942,190 @@ Proof.
   intros Hm Hr. destruct (ran_order evs p c) eqn:Ho; [|reflexivity].
   rewrite (pruning_no_missed_overlap evs p c Hm Ho) in Hr. discriminate.
 Qed.
+
+(* ====================================================================================== *)
+(* G. The stamp maps of a reachable world are the pruned image of one history               *)
+(* ====================================================================================== *)
+
+Fixpoint last_time (t0 : N) (bl : list bev) : N :=
+  match bl with
+  | [] => t0
+  | e :: r => match bev_time e with Some t => last_time t r | None => last_time t0 r end
+  end.
+
+Lemma mono_app_one bl : forall t0 e,
+  mono t0 (bl ++ [e]) = mono t0 bl && match bev_time e with Some t => last_time t0 bl <=? t | None => true end.
+Proof.
+  induction bl as [|b bl IH]; intros t0 e; cbn [app mono last_time].
+  - destruct (bev_time e); [rewrite andb_true_r|]; reflexivity.
+  - destruct (bev_time b) as [tb|]; rewrite IH; [rewrite andb_assoc|]; reflexivity.
+Qed.
+
+Lemma last_time_app_one bl : forall t0 e,
+  last_time t0 (bl ++ [e]) = match bev_time e with Some t => t | None => last_time t0 bl end.
+Proof.
+  induction bl as [|b bl IH]; intros t0 e; cbn [app last_time].
+  - destruct (bev_time e); reflexivity.
+  - destruct (bev_time b); apply IH.
+Qed.
+
+Lemma brun_app_one bl e : brun (bl ++ [e]) = bstep (brun bl) e.
+Proof. unfold brun. rewrite fold_left_app. reflexivity. Qed.
+Lemma hrun_app_one bl e : hrun (bl ++ [e]) = hstep (hrun bl) e.
+Proof. unfold hrun. rewrite fold_left_app. reflexivity. Qed.
+
+(* the world's maps come from the history bl, whose readings never decrease and end at <= now *)
+Definition book_hist (w : world) (now : N) : Prop :=
+  exists bl, bk w = brun bl /\ hs w = hrun bl /\ mono 0 bl = true /\ last_time 0 bl <= now.
+
+Lemma book_hist_set_book w now e t :
+  book_hist w now -> bev_time e = Some t -> now <= t -> book_hist (set_book w e) t.
+Proof.
+  intros [bl [Hb [Hh [Hm Hl]]]] Het Hle. exists (bl ++ [e]). cbn [set_book bk hs].
+  rewrite brun_app_one, hrun_app_one, Hb, Hh. split; [reflexivity|]. split; [reflexivity|].
+  rewrite mono_app_one, last_time_app_one, Het, Hm. cbn [andb].
+  split; [apply N.leb_le; lia|lia].
+Qed.
+
+Lemma book_hist_weaken w now now' : book_hist w now -> now <= now' -> book_hist w now'.
+Proof. intros [bl [Hb [Hh [Hm Hl]]]] Hle. exists bl. repeat split; try assumption. lia. Qed.
+
+Lemma book_hist_same w w' now : bk w' = bk w -> hs w' = hs w -> book_hist w now -> book_hist w' now.
+Proof. intros Hb Hh [bl H]. exists bl. rewrite Hb, Hh. exact H. Qed.
+
+Definition ev_time_ok (now : N) (e : ev) : Prop :=
+  match e with
+  | EBk b => match bev_time b with Some t => now <= t | None => True end
+  | ETry t => now <= t
+  | EEnd t _ => now <= t
+  | _ => True
+  end.
+
+Definition ev_now (now : N) (e : ev) : N :=
+  match e with
+  | EBk b => match bev_time b with Some t => t | None => now end
+  | ETry t => t
+  | EEnd t _ => t
+  | _ => now
+  end.
+
+Lemma amend_one_book a f : bk (a_w (amend_one a f)) = bk (a_w a) /\ hs (a_w (amend_one a f)) = hs (a_w a).
+Proof.
+  unfold amend_one.
+  destruct (resolve_supply_gen _ _ _ _ _) as [[st det]|]; [|split; reflexivity].
+  destruct (amend_input_gen _ _ _ _ _) as [[[unav unconf] unfr] dyn].
+  destruct dyn; split; reflexivity.
+Qed.
+
+Lemma amend_fold_book ps : forall a,
+  bk (a_w (fold_left amend_one ps a)) = bk (a_w a) /\ hs (a_w (fold_left amend_one ps a)) = hs (a_w a).
+Proof.
+  induction ps as [|f ps IH]; intros a; cbn [fold_left]; [split; reflexivity|].
+  destruct (IH (amend_one a f)) as [H1 H2]. destruct (amend_one_book a f) as [H3 H4].
+  split; congruence.
+Qed.
+
+Lemma confirm_fold_book l : forall w u,
+  bk (fst (fold_left confirm_one l (w, u))) = bk w /\ hs (fst (fold_left confirm_one l (w, u))) = hs w.
+Proof.
+  induction l as [|f l IH]; intros w u; cbn [fold_left]; [split; reflexivity|].
+  unfold confirm_one at 2 4. cbv zeta.
+  match goal with |- context [fold_left confirm_one l (?w1, ?u1)] => destruct (IH w1 u1) as [H1 H2] end.
+  split; [rewrite H1|rewrite H2]; reflexivity.
+Qed.
+
+Lemma do_amend_book w ps : bk (fst (do_amend w ps)) = bk w /\ hs (fst (do_amend w ps)) = hs w.
+Proof.
+  unfold do_amend. destruct (c_run w) as [r|]; [|split; reflexivity].
+  destruct (a_rej _); [split; reflexivity|].
+  destruct (fold_left confirm_one _ _) as [w1 u1] eqn:Hc.
+  rewrite amend_tail_spec. cbv iota beta. cbn [fst set_run bk hs].
+  pose proof (confirm_fold_book (a_check (fold_left amend_one ps (mkAcc w [] [] [] false)))
+                (a_w (fold_left amend_one ps (mkAcc w [] [] [] false)))
+                (a_unav (fold_left amend_one ps (mkAcc w [] [] [] false)))) as [H1 H2].
+  rewrite Hc in H1, H2. cbn [fst] in H1, H2.
+  destruct (amend_fold_book ps (mkAcc w [] [] [] false)) as [H3 H4]. cbn [a_w] in H3, H4.
+  split; congruence.
+Qed.
+
+Lemma rehash_failed_book w l : bk (rehash_failed w l) = bk w /\ hs (rehash_failed w l) = hs w.
+Proof. split; reflexivity. Qed.
+
+Lemma book_hist_step w now e :
+  book_hist w now -> ev_time_ok now e -> book_hist (fst (step w e)) (ev_now now e).
+Proof.
+  intros HB Hok. destruct e as [f v|f row|st df dc|b|dr|t|ps|t ok]; cbn [step fst ev_now ev_time_ok] in *.
+  - eapply book_hist_same; [| |exact HB]; reflexivity.
+  - eapply book_hist_same; [| |exact HB]; reflexivity.
+  - eapply book_hist_same; [| |exact HB]; reflexivity.
+  - destruct (bev_time b) as [t|] eqn:Hb.
+    + eapply book_hist_set_book; eassumption.
+    + destruct b; try discriminate Hb. destruct HB as [bl [H1 [H2 [H3 H4]]]].
+      exists (bl ++ [BClear]). cbn [set_book bk hs]. rewrite brun_app_one, hrun_app_one, H1, H2.
+      split; [reflexivity|]. split; [reflexivity|].
+      rewrite mono_app_one, last_time_app_one, H3. cbn. split; [reflexivity|exact H4].
+  - eapply book_hist_same; [| |exact HB]; reflexivity.
+  - (* ETry *)
+    unfold do_try. destruct (dispatchable w); cbn [negb fst]; [|eapply book_hist_weaken; eassumption].
+    destruct (derive_error w); cbn [fst]; [eapply book_hist_same; [| |eapply book_hist_weaken; eassumption]; reflexivity|].
+    cbv zeta.
+    set (w1 := set_book (set_crow w SS_RUNNING false (c_dc w)) (BStart (c_id (set_crow w SS_RUNNING false (c_dc w))) t)).
+    assert (H1 : book_hist w1 t).
+    { unfold w1. eapply book_hist_set_book; [|reflexivity|exact Hok].
+      eapply book_hist_same; [| |exact HB]; reflexivity. }
+    destruct (snap_changed w1 (snapshot w)).
+    + rewrite mark_completed_fail. cbn [fst].
+      destruct H1 as [bl1 [Hb1 [Hh1 [Hm1 Hl1]]]].
+      exists (bl1 ++ [BStop (c_id w) t false]).
+      rewrite brun_app_one, hrun_app_one, <- Hb1, <- Hh1, mono_app_one, last_time_app_one, Hm1.
+      cbn [bev_time andb].
+      split; [reflexivity|]. split; [reflexivity|]. split; [apply N.leb_le; lia|lia].
+    + cbn [fst]. eapply book_hist_same; [| |exact H1]; reflexivity.
+  - (* EAmend *)
+    destruct (do_amend_book w ps) as [H1 H2]. eapply book_hist_same; eassumption.
+  - (* EEnd *)
+    unfold do_end. destruct (c_run w) as [r|]; cbn [fst]; [|eapply book_hist_weaken; eassumption].
+    cbv zeta.
+    destruct (classify_gen _ _ _ _ _) as [[[[[hash_some wants_defer] success] ru] rf] rehash].
+    destruct (mark_completed_gen _ _ _ _ _ _) as [[[[[[[st df] interrupted] dc] x1] x2] x3] x4].
+    cbn [fst].
+    destruct HB as [bl [Hb [Hh [Hm Hl]]]].
+    exists (bl ++ [BStop (c_id w) t hash_some]).
+    rewrite brun_app_one, hrun_app_one, <- Hb, <- Hh, mono_app_one, last_time_app_one, Hm.
+    cbn [bev_time andb].
+    split; [destruct rehash; reflexivity|]. split; [destruct rehash; reflexivity|].
+    split; [apply N.leb_le; lia|lia].
+Qed.
+
+(* In every world reached by events whose clock readings never decrease, a verdict "not unfresh"
+   for producer p means: in the order of the stamp events so far, the current start of c does not
+   precede p's last successful stop (and a verdict "unfresh" is justified by the full history). *)
+Theorem reachable_verdict_sound w now p :
+  book_hist w now ->
+  (ran_conc (bk w) p (c_id w) = false ->
+     exists bl, bk w = brun bl /\ mono 0 bl = true /\ ran_order bl p (c_id w) = false) /\
+  (ran_conc (bk w) p (c_id w) = true -> ran_ref (hs w) p (c_id w) = true).
+Proof.
+  intros [bl [Hb [Hh [Hm _]]]]. split.
+  - intros Hr. exists bl. split; [exact Hb|]. split; [exact Hm|].
+    apply fresh_verdict_sound; [exact Hm|]. rewrite <- Hb. exact Hr.
+  - intros Hr. rewrite Hh. apply ran_conc_true_is_justified; [exact Hm|]. rewrite <- Hb. exact Hr.
+Qed.
+
+Fixpoint times_ok (now : N) (evs : list ev) : Prop :=
+  match evs with
+  | [] => True
+  | e :: r => ev_time_ok now e /\ times_ok (ev_now now e) r
+  end.
+
+Lemma book_hist_run evs : forall w now,
+  book_hist w now -> times_ok now evs -> exists now', book_hist (run evs w) now'.
+Proof.
+  induction evs as [|e evs IH]; intros w now HB Ht.
+  - exists now. exact HB.
+  - destruct Ht as [He Hr]. unfold run. cbn [fold_left].
+    apply (IH (fst (step w e)) (ev_now now e)); [apply book_hist_step; assumption|exact Hr].
+Qed.
+
+Lemma book_hist_world0 cid init capv kg : book_hist (world0 cid init capv kg) 0.
+Proof. exists []. cbn. repeat split; try reflexivity. Qed.
